@@ -467,7 +467,9 @@ pub fn get_best_move_until_stop(
         let Some((best_move, best_score, is_only_move)) =
             get_best_move_entry(game.clone(), continue_running, depth, table, &mut history)
         else {
-            return found_move;
+            // Stopped before this iteration completed. If no iteration completed at all,
+            // still answer with a legal move when there is one
+            return found_move.or_else(|| first_legal_move(game));
         };
 
         let mut hash = game.hash();
@@ -505,6 +507,12 @@ pub fn get_best_move_until_stop(
     }
 
     unreachable!()
+}
+
+fn first_legal_move(game: &Game) -> Option<Move> {
+    let mut moves = ArrayVec::new();
+    game.clone().get_moves(&mut moves, true);
+    moves.first().copied()
 }
 
 /// Verification-only wrappers around the private search functions and the table entry.
